@@ -21,9 +21,22 @@
     partget <k> <r> <c>                     checked getter of part k            → some(<id>) | none
     partscan                                row-major iteration of every part   → RxC:<ids>;…
     partset <k> <r> <c>                     write through part k, scan the matrix → changed=<offsets> | none
+
+  Views whose source is changed after construction (`source_ref_mut`, `source_ref`, `source`):
+    @ live <rows> <cols> <fr>:<fc>,…        MatrixReverse(s) (innermost first) over a matrix holding
+                                            1..rows·cols, source kind given by src=owned|mut|boxed
+                                                                                → ok size=RxC
+    src <C11 operation …>                   `view.source_ref_mut()…` down to the matrix, then the
+                                            operation (insert_row, remove_column, retain_mut, set, …)
+                                                                                → ok size=RxC | panic(<kind>) size=RxC
+    wrap <fr> <fc> | unwrap                 one more MatrixReverse::from / `source(self)`   → ok size=RxC
+    lget <r> <c> | luget <r> <c> | lscan    as mget / uget / scan, answering *elements*
+    lset <r> <c>                            write through the view, scan the matrix → changed=<offsets> | none
+    srcget <k> <r> <c>                      `source_ref()` k times, then the checked getter → some(<element>) | none
 -/
 import EasyMl.Spec.MatrixView
 import Driver.Parse
+import Driver.C11
 
 namespace Driver.C12
 open EasyMl EasyMl.Fallible EasyMl.MatrixView Driver
@@ -33,6 +46,7 @@ structure State where
   view : Option MViewU := none
   parts : List MatrixPart := []       -- model
   specParts : List MatrixPart := []   -- specification
+  live : Option (Live Nat) := none
 
 def init : State := {}
 
@@ -81,8 +95,94 @@ def showScanModel (v : MViewU) : String :=
 
 def partScan (p : MatrixPart) : String := s!"{p.rows}x{p.columns}:{showIds p.cells}"
 
+
+/-- element stored at an offset of the current data -/
+def elemAt (l : Live Nat) (o : Option Nat) : Option Nat := o.bind (l.leaf.data[·]?)
+
+def liveSpec (l : Live Nat) : MExpr := reversalsOver l.leaf.rows l.leaf.columns l.flags
+
+def liveSize (l : Live Nat) : String :=
+  both s!"size={(liveSpec l).size.1}x{(liveSpec l).size.2}"
+       s!"size={(l.view A).view.rows}x{(l.view A).view.columns}"
+
+def parseFlags (s : String) : Option (List (Bool × Bool)) :=
+  (splitComma s).mapM fun part =>
+    match part.splitOn ":" with
+    | [a, b] => some (a = "1", b = "1")
+    | _ => none
+
+def liveStep (s : State) (l : Live Nat) (toks : List String) : State × String :=
+  match toks with
+  | "src" :: rest =>
+    match Driver.C11.parseOp rest with
+    | none => (s, "bad-op")
+    | some op =>
+      let (l', p) := l.mutate op
+      ({ s with live := some l' },
+        (match p with | none => "ok " | some k => s!"panic({k}) ") ++ liveSize l')
+  | "wrap" :: a :: b :: _ =>
+    let l' := Live.reverse l (a = "1") (b = "1")
+    ({ s with live := some l' }, "ok " ++ liveSize l')
+  | "unwrap" :: _ =>
+    match l.unwrap with
+    | some l' => ({ s with live := some l' }, "ok " ++ liveSize l')
+    | none => (s, "bad-op")
+  | "lget" :: rS :: cS :: _ =>
+    match rS.toNat?, cS.toNat? with
+    | some r, some c =>
+      (s, both (showOpt (elemAt l ((liveSpec l).cell r c)))
+               (showOutcome (fun o => showOpt (elemAt l o)) ((l.view A).view.get r c)))
+    | _, _ => (s, "bad-op")
+  | "luget" :: rS :: cS :: _ =>
+    match rS.toNat?, cS.toNat? with
+    | some r, some c =>
+      (s, both (match elemAt l ((liveSpec l).cell r c) with
+                | some x => toString x | none => "out-of-contract")
+               (match (l.view A).uget r c with
+                | .ok o => (match elemAt l (some o) with | some x => toString x | none => "hole")
+                | .panic k => s!"panic({k})"))
+    | _, _ => (s, "bad-op")
+  | "lscan" :: _ =>
+    let e := liveSpec l
+    let v := l.view A
+    let specCells := (List.range e.size.1).flatMap fun i =>
+      (List.range e.size.2).filterMap fun j => elemAt l (e.cell i j)
+    let modelCells := (List.range v.view.rows).flatMap fun i =>
+      (List.range v.view.columns).filterMap fun j =>
+        match v.view.get i j with
+        | .ok o => elemAt l o
+        | .panic _ => none
+    (s, both s!"{e.size.1}x{e.size.2}:{showIds specCells}"
+             s!"{v.view.rows}x{v.view.columns}:{showIds modelCells}")
+  | "lset" :: rS :: cS :: _ =>
+    match rS.toNat?, cS.toNat? with
+    | some r, some c =>
+      (s, both (match (liveSpec l).cell r c with | some i => s!"changed={i}" | none => "none")
+               (match (l.view A).view.get r c with
+                | .ok (some i) => s!"changed={i}"
+                | .ok none => "none"
+                | .panic k => s!"panic({k})"))
+    | _, _ => (s, "bad-op")
+  | "srcget" :: kS :: rS :: cS :: _ =>
+    match kS.toNat?, rS.toNat?, cS.toNat? with
+    | some k, some r, some c =>
+      match l.sourceRef k with
+      | none => (s, "bad-op")
+      | some inner =>
+        (s, both (showOpt (elemAt inner ((liveSpec inner).cell r c)))
+                 (showOutcome (fun o => showOpt (elemAt inner o)) ((inner.view A).view.get r c)))
+    | _, _, _ => (s, "bad-op")
+  | _ => (s, "bad-op")
+
 def step (s : State) (toks : List String) : State × String :=
   match toks with
+  | "@" :: "live" :: rS :: cS :: flagsS :: _ =>
+    match rS.toNat?, cS.toNat?, parseFlags flagsS with
+    | some r, some c, some flags =>
+      let m : Matrix Nat := ⟨(List.range (r * c)).map (· + 1), r, c⟩
+      let l := flags.foldl (fun (l : Live Nat) f => Live.reverse l f.1 f.2) (Live.matrix m)
+      ({ live := some l }, "ok " ++ liveSize l)
+    | _, _, _ => ({}, "bad-op")
   | "@" :: "matrix" :: rS :: cS :: _ =>
     match rS.toNat?, cS.toNat? with
     | some r, some c => install {} (.leaf r c)
@@ -170,6 +270,12 @@ def step (s : State) (toks : List String) : State × String :=
         (s, both (ans sp) (ans mp))
       | _, _ => (s, "no-part")
     | _, _, _ => (s, "bad-op")
+  | op :: _ =>
+    if ["src", "wrap", "unwrap", "lget", "luget", "lscan", "lset", "srcget"].contains op then
+      match s.live with
+      | some l => liveStep s l toks
+      | none => (s, "no-view")
+    else (s, "bad-op")
   | _ => (s, "bad-op")
 
 end Driver.C12
